@@ -46,7 +46,7 @@ def node_variant(pat):
 
 def print_xml_match(F):
     b = F.body(PX)
-    ms = [m for m in hirq.matches(b["hir"]) if len(m["arms"]) > 30]
+    ms = [m for m in hirq.matches(b["hir"]) if hirq.n_alts(m) > 30]
     if len(ms) != 1:
         raise AnchorMissing("print_xml's main match not found")
     return b, ms[0]
